@@ -172,6 +172,7 @@ def stress_levels_case(rng, tier, n):
 
 # ----------------------------------------------------------------------------- Part B data
 RATES = [20, 35, 50]
+LOCKSTEP_RATES = [[0, 20, 86400000], [1000, 0, 7], [86400000, 1, 0], [30, 31, 32]]
 
 
 def text_of(fmt, tag, rate, variant=0):
@@ -214,8 +215,9 @@ ACTIONS = ["valid-change", "no-change", "touch-only", "syntax-error", "deletion"
            "valid-change-carrying-an-OLDER-mtime (rollback / timestamp-preserving copy)"]
 
 
-def build_history(fmt, actions, kind=3):
+def build_history(fmt, actions, kind=3, RATES=None, link=0):
     """turn abstract edit actions into concrete file states + the parse table"""
+    RATES = RATES or globals()["RATES"]
     texts = []      # [bytes, ok, tag, hasrate, rate]
 
     def tid_of(s, ok, tag, rate):
@@ -294,7 +296,7 @@ def build_history(fmt, actions, kind=3):
                 old_m = m
             cur = [2, old_m, tid_of(text_of(fmt, tag, rate), True, tag, rate)]
         steps.append(list(cur))
-    return [kind, fmt, texts, [1, t0], steps, list(actions)]
+    return [kind, fmt, texts, [1, t0], steps, list(actions)] + ([link] if kind == 6 else [])
 
 
 LIVE = [[3, 0], [4, 0], [6, 0], [5, 0], [2, 0], [8, 0], [0, 3, 7], [3, 4, 3, 0], [0, 6, 0, 7], [3, 3, 0, 2],
@@ -353,6 +355,20 @@ def cases(rng, tier):
         out.append(build_history(rng.below(3), acts))
     for acts in LIVE:
         out.append(build_history(0, acts, kind=4))
+    # kind 6: the real init_file + the real refresh thread, polled in lock step through the reloader_sleep hook:
+    # every history of 3 (quick) edits over the 9 basic actions, all formats in turn, refresh rates that
+    # include 0 ms and a day (the thread never really sleeps), half of them with the config path a symbolic link
+    # that is re-pointed at every edit
+    n6 = 0
+    for acts in itertools.product(range(9), repeat=3 if tier == "quick" else 4):
+        if tier == "quick" and n6 % 3 and not (3 in acts or 4 in acts or 8 in acts):
+            n6 += 1
+            continue
+        n6 += 1
+        out.append(build_history(n6 % 3, list(acts), kind=6, RATES=LOCKSTEP_RATES[n6 % len(LOCKSTEP_RATES)], link=(n6 // 3) % 2))
+    for _ in range(60 if tier == "quick" else 1500):
+        acts = [rng.choice([0, 0, 1, 2, 3, 3, 4, 5, 6, 7, 8, 9, 10, 11, 12, 13]) for _ in range(rng.range(4, 9))]
+        out.append(build_history(rng.below(3), acts, kind=6, RATES=rng.choice(LOCKSTEP_RATES), link=rng.below(2)))
     for _ in range(6 if tier == "quick" else 40):
         acts = [rng.choice([0, 0, 2, 3, 4, 5, 6, 7, 8]) for _ in range(rng.range(2, 4))]
         out.append(build_history(rng.below(3), acts, kind=4))
@@ -363,9 +379,9 @@ def cases(rng, tier):
 def run_impl(ctx, cases, lines):
     vc = ctx["vc"]
     vh = ctx["vh"]
-    live = [i for i, c in enumerate(cases) if c[0] == 4]
+    live = [i for i, c in enumerate(cases) if c[0] in (4, 6)]
     glob = [i for i, c in enumerate(cases) if c[0] == 5]
-    rest = [i for i, c in enumerate(cases) if c[0] not in (4, 5)]
+    rest = [i for i, c in enumerate(cases) if c[0] not in (4, 5, 6)]
     res = [None] * len(cases)
     # independent cases: several harness processes side by side (the stress runs get their own)
     nw = 6
@@ -401,7 +417,7 @@ def run_impl(ctx, cases, lines):
                 res[i] = r
     if live:
         # the model says what to wait for (bounded waits only; the comparison is done by the check)
-        exp = vc.run_lines([ctx["drv"]], [lines[i] for i in live], timeout_per_batch=300,
+        exp = vc.run_lines([ctx["drv"]], [as_model_line(vc, cases[i], lines[i]) for i in live], timeout_per_batch=300,
                            crash_marker="xmodelcrash")
 
         def one(j):
@@ -410,12 +426,12 @@ def run_impl(ctx, cases, lines):
                 return "xskipped"
             try:
                 mv = vc.parse(exp[j])
-                want = [[p[3], p[4]] for p in mv[1]]
+                want = [[p[3], p[4]] for p in mv[1]] if cases[i][0] == 4 else mv[1]
             except Exception:
                 return "xmodelcrash"
             data = (lines[i] + "\n" + vc.show(want) + "\n").encode()
             try:
-                p = subprocess.run([vh, "live"], input=data, stdout=subprocess.PIPE, stderr=subprocess.PIPE,
+                p = subprocess.run([vh, "live" if cases[i][0] == 4 else "live2"], input=data, stdout=subprocess.PIPE, stderr=subprocess.PIPE,
                                    timeout=120, env=vc.ENV)
             except subprocess.TimeoutExpired:
                 hung[0] += 1
@@ -429,10 +445,19 @@ def run_impl(ctx, cases, lines):
     return res
 
 
+def as_model_line(vc, c, ln):
+    if c[0] == 0 and len(c) > 6:
+        return vc.show(c[:6])
+    if c[0] == 6:
+        return vc.show([3] + c[1:6])      # the lock-step thread is the stepped reloader of the model
+    return ln
+
+
 def model_lines(ctx, cases, lines, impl_lines):
-    """kind 0 with a failing appender / recording error handler (7th component): the routing model is the same"""
+    """kind 0 with a failing appender / recording error handler (7th component): the routing model is the same;
+    kind 6 (lock-step refresh thread): the model's stepped reloader"""
     vc = ctx["vc"]
-    return [vc.show(c[:6]) if (c[0] == 0 and len(c) > 6) else ln for c, ln in zip(cases, lines)]
+    return [as_model_line(vc, c, ln) for c, ln in zip(cases, lines)]
 
 
 # ----------------------------------------------------------------------------- judging
@@ -529,6 +554,24 @@ def compare(c, impl, model):
                 return ("poll %d (%s): (err stopped rate active nset) = %r, model %r"
                         % (n + 1, ACTIONS[c[5][n]] if n < len(c[5]) else "?", a, b))
         return None if len(impl[1]) == len(model[1]) else "number of polls differs"
+    if k == 6:
+        where = "real init_file + refresh thread in lock step%s" % (", config path a re-pointed symbolic link" if c[6] else "")
+        if not impl or impl[0][0] != 0:
+            return "%s: the refresh thread never asked to sleep although the document has a refresh_rate" % where
+        first = model[0][c[3][1]][1][0] if model[0][c[3][1]] and model[0][c[3][1]][1] else None
+        if impl[0][1] != first:
+            return "%s: first interval asked for %r ms, the document says %r ms" % (where, impl[0][1], first)
+        for n, (a, b) in enumerate(zip(impl[1:], model[1])):
+            # b = (err stopped rate active nset); a = (stopped asked active nset)
+            act = ACTIONS[c[5][n]] if n < len(c[5]) else "?"
+            if a[0] != b[1]:
+                return "%s, poll %d (%s): refresh thread %s, model: %s" % (
+                    where, n + 1, act, "stopped" if a[0] else "goes on", "stopped" if b[1] else "goes on")
+            if not a[0] and a[1] != b[2]:
+                return "%s, poll %d (%s): the thread asked to sleep %r ms, model %r ms" % (where, n + 1, act, a[1], b[2])
+            if a[2:] != b[3:]:
+                return "%s, poll %d (%s): (active config, #set_config) = %r, model %r" % (where, n + 1, act, a[2:], b[3:])
+        return None if len(impl) == len(model[1]) + 1 else "number of polls differs"
     if k == 4:
         want = [[p[3], p[4]] for p in model[1]]
         for n, (a, b) in enumerate(zip(impl, want)):
@@ -570,7 +613,7 @@ def classify(c):
         return "drop-probe"
     if k == 5:
         return "global-facade swaps=%d" % (len(c[2]) - 1)
-    return "%s fmt=%s len=%d" % ("reload-step" if k == 3 else "reload-live", ["yaml", "json", "toml"][c[1]], len(c[4]))
+    return "%s fmt=%s len=%d" % ({3: "reload-step", 6: "reload-lockstep-thread"}.get(k, "reload-live"), ["yaml", "json", "toml"][c[1]], len(c[4]))
 
 
 def describe(c):
@@ -587,5 +630,5 @@ def describe(c):
     if k == 5:
         return {"kind": "global logger behind the log facade", "config_sequence": [c[1][i][0] for i in c[2]],
                 "configs": c[1], "probes": len(c[3])}
-    return {"kind": "reloader " + ("stepped" if k == 3 else "live thread"), "format": ["yaml", "json", "toml"][c[1]],
+    return {"kind": "reloader " + {3: "stepped", 6: "real refresh thread in lock step (reloader_sleep hook)"}.get(k, "live thread"), "format": ["yaml", "json", "toml"][c[1]],
             "edits": [ACTIONS[a] for a in c[5]], "file_states": c[4]}
